@@ -1,17 +1,44 @@
 """C01 - fan-out delivers every packet once, in order, unmodified, to every consumer."""
+import json, os
 from checks import fanout_common as fc
+from vlib import Infra
 LEVEL = "model_checking"
+
+
+def transports(ck):
+    """the statement over the real transports: numbered packets into a stream of a running server, real clients on every transport"""
+    tr = os.path.join(ck.tmp, "transport.ndjson")
+    o2 = os.path.join(ck.tmp, "transport_out.json")
+    ck.run_driver("./transport", "^TestTransports$", {"VERIF_OUT": tr, "VERIF_OUT2": o2}, timeout=900)
+    res = ck.read_result(o2)
+    n = sum(1 for _ in open(tr))
+    if res["items"] < 300 * res["rounds"]:
+        raise Infra("vacuous: transport clients received %d items in %d rounds" % (res["items"], res["rounds"]))
+    rt = ck.tlc("fanout", "TransportTrace", "TransportTrace.cfg", workers=1, env={"VERIF_TRACE": tr}, label="acceptance of what 7 real clients received (%d records)" % n, timeout=900)
+    if rt.distinct != n + 1:
+        raise Infra("trace validation consumed %d of %d" % (rt.distinct - 1, n))
+    ck.cov["transport_leg"] = {"rounds": res["rounds"], "items_received": res["items"], "clients": ["RTSP/TCP", "RTSP/UDP", "ws-rtsp", "HTTP-FLV", "WSP (late)", "WebSocket-FLV (late)", "RTSP/TCP (late)"]}
+    ck.cov["traces_validated_against_impl"] += res["rounds"]
+    seen = set()
+    for b in rt.printed("@BAD"):
+        key = "%s:%s" % (b["why"], b["c"])
+        if key in seen:
+            continue
+        seen.add(key)
+        ck.violation(key, "%s: client %s (%s), %d items, attached until packet %d" % (b["why"], b["c"], b["proto"], b["nitems"], b["left_at"]), b)
 
 
 def run(ck):
     q = ck.quick()
     fc.run_family(ck, "C01", ["deliver2", "stop3", "flv2", "hevc2"] if q else list(fc.fs.SCENARIOS),
                   ["C01"], 200 if q else 2000, 600 if q else 20000)
+    transports(ck)
+    ck.assumptions += ["transport leg: the publisher keeps writing for a quarter of a second after the judged sequence, because the TCP / WebSocket / HTTP writers batch (a write is flushed at once only when the previous flush is 20 ms old, otherwise with the next write); multicast is not exercised (no multicast route in the sandbox)"]
 
 
 META = {
-    "text": "Fanout.tla models the publisher, joiners, consumer goroutines, stoppers and closer of one stream at the grain of the verif hook points; TLC checks it exhaustively against the delivery invariants of FanoutProp (order, at most once, no gap between replay and live, completeness, independence from other consumers), generates schedules (random complete behaviours, edge-cover sample, counterexamples of the model with each fix switched off) that the gate scheduler replays on the real media.Stream, and validates the recorded API-level traces against the property-level specification.",
-    "note": "Trusted: TLC, FanoutProp.tla as transcription of the statement, the gate scheduler (one process runs between two hooks; quiescence from goroutine states), recording consumers (payload compared byte-wise with a copy taken before publication). Transport adapters (TCP/UDP/WS/FLV writers) are covered by the server-level checks, not here.",
+    "text": "Fanout.tla models the publisher, joiners, consumer goroutines, stoppers and closer of one stream at the grain of the verif hook points; TLC checks it exhaustively against the delivery invariants of FanoutProp (order, at most once, no gap between replay and live, completeness, independence from other consumers), generates schedules (random complete behaviours, edge-cover sample, counterexamples of the model with each fix switched off) that the gate scheduler replays on the real media.Stream, and validates the recorded API-level traces against the property-level specification. A transport leg feeds a numbered sequence into a stream of a running server while real clients (RTSP/TCP, RTSP/UDP, RTSP over WebSocket, WSP control + data, HTTP-FLV, WebSocket-FLV; attached before the first packet, in mid stream, one leaving early) record what they read; TLC validates it against TransportTrace.tla (order, at most once, byte-identical packet / media payload, nothing missing between first and last).",
+    "note": "Trusted: TLC, FanoutProp.tla as transcription of the statement, the gate scheduler (one process runs between two hooks; quiescence from goroutine states), recording consumers (payload compared byte-wise with a copy taken before publication). The transport leg trusts the strict clients in harness/vclient and harness/transport.",
     "technique": "TLA+ implementation-level model checked by TLC against property invariants; TLC-generated schedules replayed on real code via hook gates; TLC trace validation (property level and step level)",
     "specs": ["fanout"],
 }
